@@ -21,7 +21,9 @@ RULE = ("base cases: SpecializedRayTracer and BasicRayTracer (dz 2..8) in Antarc
         "below, plus shadow-zone pairs (two shallow far-apart points; for the layered tracer both in one exponential "
         "layer), exactly vertical pairs (rho == 0) and pairs in the near-vertical band rho < 0.003 |dz|, and integer-valued "
         "endpoints handed over as Python ints / int lists / int64 arrays, endpoints exactly on the surface / lower bound of "
-        "the ice / at one depth, endpoints outside the ice; search additionally: caller-owned endpoint buffers modified "
+        "the ice / at one depth (gradient tracers) and exactly on the lower / upper bound of a UniformIce (source or receiver, "
+        "max_reflections 0..3), endpoints outside the ice; ice.contains on both exact bounds and one ulp either side for "
+        "every shipped ice class; search additionally: caller-owned endpoint buffers modified "
         "after construction, several live tracers solved before any path quantity is read, attenuation call forms (scalar, "
         "0-d, one-element, list, negative f), evaluation-order independence (same pairs x different ice models in one "
         "process vs a fresh interpreter in reverse order); each base case is re-run under a random rotation about z, a horizontal translation up to 1e5 m and the "
@@ -177,6 +179,14 @@ def onbound_case(run, tracer):
     """an endpoint exactly on the surface (z == valid_range[1]) or on the lower bound of the ice, or both at one depth"""
     d = rand_case(run, tracer)
     r = run.rng
+    if tracer == "uniform":
+        # source or receiver exactly on the lower / upper bound of the UniformIce, every max_reflections 0..3
+        d["max_reflections"] = r.choice([0, 1, 2, 3])
+        d["A"][2] = min(max(d["A"][2], d["range"][0] + 1), d["range"][1] - 1)      # the other endpoint inside
+        k = r.choice(["lower", "lower", "upper"])
+        d[r.choice(["A", "B"])][2] = d["range"][0] if k == "lower" else d["range"][1]
+        d["flavour"] = "onbound:" + k
+        return d
     # (the lower bound is not sampled: at z < -2880 m the index is saturated, max_angle = pi/2 and brentq rejects the NaN of
     #  _direct_r(pi/2) - the K17 mechanism, here for both gradient tracers)
     k = r.choice(["surface", "surface", "level"])
@@ -381,6 +391,9 @@ def _record(tr, desc):
                 rec["imax"] = float(tr.indirect_r_max) if not rec["rho"] < rec["dmax"] else float("nan")
         else:
             rec["phi"] = float(tr.phi)
+            if desc["tracer"] == "uniform":
+                lo_, hi_ = tr.ice.valid_range
+                rec["closed"] = bool(lo_ <= float(tr.from_point[2]) <= hi_ and lo_ <= float(tr.to_point[2]) <= hi_)
         for p in sols:
             s = {"len": float(p.path_length), "tof": float(p.tof), "att": fls(p.attenuation(FREQS)),
                  "emitted": fls(p.emitted_direction), "received": fls(p.received_direction), "phi": float(p.phi),
@@ -388,6 +401,8 @@ def _record(tr, desc):
                  "k3": desc.get("flavour") == "vertical" and float(tr.rho) > 0}
             if s["k3"]:
                 s["noise"] = cancellation_noise(p, at_threshold=True)
+            # an endpoint exactly on a bound of a UniformIce gives reflected paths a leg of zero length whose direction is 0/0
+            s["degenerate"] = desc["tracer"] == "uniform" and str(desc.get("flavour", "")).startswith("onbound")
             if desc["tracer"] in ("spec", "basic"):
                 s["theta0"], s["direct"] = float(p.theta0), bool(p.direct)
             if desc["tracer"] == "uniform":
@@ -432,6 +447,8 @@ def same_solution(b, o, want_e, want_r, att_tol):
                 return "attenuation %r vs %r" % (b["att"], o["att"])
         elif abs(math.log(x) - math.log(y)) > t:
             return "attenuation %r vs %r (tolerance %r on the exponent)" % (b["att"], o["att"], list(att_tol))
+    if b.get("degenerate") or o.get("degenerate"):
+        return None
     if not vec_close(o["emitted"], want_e, dtol):
         return "emitted direction %s, expected %s" % (o["emitted"], want_e)
     if not vec_close(o["received"], want_r, dtol):
@@ -488,6 +505,9 @@ def relation_failures(desc, base, moved, swapped, rot):
         if "inside" in rec and rec["inside"] != rec["contains"]:
             out.append(("contains", "%s geometry: ice.contains = %s for endpoints whose depths are %s the valid range "
                         "(bounds included)" % (name, rec["contains"], ["inside" if v else "outside" for v in rec["inside"]])))
+        if "closed" in rec and (rec["exists"] != rec["closed"] or (rec["n"] > 0) != rec["closed"]):
+            out.append(("exists", "%s geometry: exists=%s with %d solutions, but both endpoints inside the closed valid "
+                        "range: %s" % (name, rec["exists"], rec["n"], rec["closed"])))
     if out:
         return out
     errs = [rec.get("error") for rec in (base, moved, swapped)]
@@ -540,7 +560,7 @@ def budget(run):
             ("uniform", "intform", run.scale(12, 120)), ("layered", "intform", run.scale(4, 40)),
             ("spec", "intform", run.scale(4, 40)),
             ("spec", "onbound", run.scale(8, 80)), ("basic", "onbound", run.scale(3, 30)),
-            ("layered", "onbound", run.scale(3, 30)), ("layered", "outside", run.scale(3, 30)),
+            ("layered", "onbound", run.scale(3, 30)), ("uniform", "onbound", run.scale(12, 120)), ("layered", "outside", run.scale(3, 30)),
             ("spec", "outside", run.scale(3, 30))]
 
 
@@ -664,6 +684,8 @@ def correspondence(run):
                 want.append([float(s["refl"]), s["theta0"], s["len"], s["tof"]] + s["emitted"] + s["received"])
             gg = [g[j:j + 11] for j in range(0, len(g), 11)]
             gg = [x[:1] + x[2:] for x in gg]
+            if str(d.get("flavour", "")).startswith("onbound"):
+                gg, want = [x[:4] for x in gg], [x[:4] for x in want]
             if len(gg) != len(want) or not all(fw.all_close(a, b, 1e-9, 1e-11) for a, b in zip(gg, want)):
                 bad.append("uniform solutions model=%s impl=%s" % (gg[:3], want[:3]))
         # the model's nodes and step of the left Riemann sum reproduce the implementation's attenuation
@@ -912,6 +934,39 @@ def oracle_order(run, cases=None):
     return True
 
 
+def oracle_contains(run, deep):
+    """`ice.contains` on both exact bounds of the valid range and one ulp either side, against the closed interval, for
+    every shipped ice class"""
+    rt, im, LayeredIce, LayeredRayTracer = _mods()
+    r = run.rng
+    ices = [("AntarcticIce", {}, im.AntarcticIce()), ("ArasimIce", {}, im.ArasimIce()), ("GreenlandIce", {}, im.GreenlandIce())]
+    for i in range(3 if not deep else 30):
+        kw = {"index": r.uniform(1.2, 2.0), "valid_range": [-r.uniform(50, 3000), r.choice([0.0, -r.uniform(1, 80)])],
+              "index_above": r.choice([1, None, 1.2]), "index_below": r.choice([None, 1.5])}
+        ices.append(("UniformIce", kw, im.UniformIce(**kw)))
+        kw = {"valid_range": [-r.uniform(50, 3000), r.choice([0.0, -r.uniform(1, 80)])]}
+        ices.append(("AntarcticIce", kw, im.AntarcticIce(**kw)))
+    lay = {"layers": [{"type": "u", "n": 1.4, "range": [-150.5, 0.0]}, {"type": "a", "range": [-2850.0, -150.5]}],
+           "above": 1, "below": None, "ice": "layered"}
+    ices.append(("LayeredIce", lay, make_ice(lay)))
+    for name, kw, ice in ices:
+        if name == "LayeredIce":
+            lo, hi = -2850.0, 0.0
+        else:
+            lo, hi = (float(v) for v in ice.valid_range)
+        for z in (lo, hi, np.nextafter(lo, -np.inf), np.nextafter(lo, np.inf), np.nextafter(hi, -np.inf),
+                  np.nextafter(hi, np.inf), 0.5 * (lo + hi), lo - 1.0, hi + 1.0):
+            for P in ([3.0, -4.0, float(z)], (3, -4, float(z)), np.array([3.0, -4.0, float(z)])):
+                got = bool(ice.contains(P))
+                run.case(("oracle-contains", name, str(kw), float(z), type(P).__name__), nontrivial=True)
+                if got != (lo <= float(z) <= hi):
+                    run.fail_input("contains-bounds", {"class": name, "kwargs": kw, "z": float(z), "lo": lo, "hi": hi},
+                                   observed=got, expected=bool(lo <= float(z) <= hi),
+                                   what="%s.contains at depth %r disagrees with the closed interval [%r, %r]" % (name, float(z), lo, hi))
+                    return False
+    return True
+
+
 def summary(rec):
     if "error" in rec:
         return rec["error"]
@@ -920,6 +975,7 @@ def summary(rec):
 
 
 def search(run, deep):
+    oracle_contains(run, deep)
     for tracer, flavour, n in budget(run):
         m = max(2, n // 2) if not deep else (n if run.thorough() else n * 8)
         for i in range(m):
@@ -944,6 +1000,8 @@ def replay(run, data):
         oracle_call_forms(run, inp)
     elif kind == "boundary-endpoint":
         oracle_boundary_limit(run, inp)
+    elif kind == "contains-bounds":
+        oracle_contains(run, True)
     elif kind == "order-dependence":
         oracle_order(run, inp["cases"])
     else:
